@@ -57,6 +57,7 @@ def run(rep: core.Report):
     _r18k(rep)
     _r18l(rep)
     _r18m(rep)
+    _r18n(rep)
     from rules import shared_selfalias
 
     shared_selfalias.run(rep, "R18i", ["phonopy/cui/create_force_sets.py", "phonopy/cui/phonopy_script.py", "phonopy/cui/load_helper.py", "phonopy/cui/collect_cell_info.py", "phonopy/file_IO.py", "phonopy/interface/vasp.py"])
@@ -336,6 +337,51 @@ def _r18m(rep):
         raise AnalysisError(f"R18m: only {sites} stores of the form set_x(params['k']) found in the _set_settings methods")
 
 
+def _r18n(rep):
+    """What --save-params writes, over what the object holds."""
+    import itertools
+
+    from engine import pyeval
+
+    rep.rule("R18n", "--save-params (SAVE_PARAMS): the settings handed to the yaml dumper, evaluated over the finite domain (no dataset / displacements only / displacements and forces) x (force constants present / absent): forces are written whenever the dataset holds them, and force constants are written whenever the object has them and the dataset holds no forces -- a summary file from which the calculation cannot be re-run is the failure", 6)
+    fn = core.find_def(SCRIPT, "_finalize_phonopy")
+    tree = core.parse(SCRIPT)
+    params = [a.arg for a in fn.args.args]
+    ph = next((a.arg for a in fn.args.args if a.annotation is not None and core.src(a.annotation).endswith("Phonopy")), None)
+    st_ = next((a.arg for a in fn.args.args if a.annotation is not None and "Settings" in core.src(a.annotation)), None)
+    if ph is None or st_ is None:
+        raise AnalysisError("R18n: _finalize_phonopy lost its annotated parameters (the Phonopy object, the settings)")
+    saves = [c for c in ast.walk(fn) if isinstance(c, ast.Call) and any(k.arg == "settings" for k in c.keywords) and (core.src(c.func) == "PhonopyYaml" or (isinstance(c.func, ast.Attribute) and c.func.attr == "save"))]
+    if not saves:
+        raise AnalysisError("R18n: _finalize_phonopy no longer hands settings= to the yaml dumper / save()")
+    sv = next((k.value for k in saves[0].keywords if k.arg == "settings"), None)
+    if not isinstance(sv, ast.Name):
+        raise AnalysisError("R18n: the settings handed to save() are not a local name")
+    var = sv.id
+    for ds, fc in itertools.product((None, "displacements", "with-forces"), (None, "FC")):
+        E = pyeval.Evaluator(tree, hooks={"attr:save_params": True, "attr:dataset": ds, "attr:force_constants": fc,
+                                          "forces_in_dataset": lambda d: d == "with-forces",
+                                          "get_default_physical_units": lambda *a, **k: pyeval.Opaque("units")}, where="_finalize_phonopy")
+        env = {p_: pyeval.Opaque(p_) for p_ in params}
+        done = False
+        try:
+            for s_ in fn.body:
+                E.block([s_], env)
+                if isinstance(s_, ast.If) and var in env:
+                    done = True
+                    break
+        except pyeval.Unknown as ex:
+            raise AnalysisError(f"R18n: _finalize_phonopy cannot be evaluated over what the object holds ({ex})")
+        if not done or not isinstance(env.get(var), dict):
+            raise AnalysisError(f"R18n: '{var}' is not bound to a dictionary by the save-params branch")
+        got = env[var]
+        need_fc = fc is not None and ds != "with-forces"
+        need_fs = ds == "with-forces"
+        ok = (not need_fc or got.get("force_constants") is True) and (not need_fs or got.get("force_sets") is True)
+        rep.instance("R18n", SCRIPT, "_finalize_phonopy", f"dataset: {ds}, force constants: {fc} -> force_sets={got.get('force_sets')}, force_constants={got.get('force_constants')}", ok,
+                     f"with --save-params, an object holding {('a dataset with ' + ds) if ds else 'no dataset'} and {'force constants' if fc else 'no force constants'} is saved with force_sets={got.get('force_sets')}, force_constants={got.get('force_constants')}: " + ("the force constants are the only thing the phonons were computed from and they are not written" if need_fc else "the forces are not written") + ", so phonopy_params.yaml does not reload to the calculation that was run", line=fn.lineno)
+
+
 def _r18l(rep):
     """Dictionary-valued settings: the keys the script reads are keys the parser stores."""
     rep.rule("R18l", "dictionary-valued settings (MODULATION): every key the command-line front end reads from the settings dictionary -- subscript, 'in' test or .get() -- is a key the configuration parser stores under; a key that is never stored reads as 'not given' without any error (.get) and the value of the tag or option never reaches the library call", 3)
@@ -520,6 +566,8 @@ def selftest():
     V = []
     b = lambda name, file, old, new, rule, expect="", **kw: V.append(dict(name=name, kind="break", file=file, old=old, new=new, rule=rule, expect=expect, **kw))
     n = lambda name, file, old, new, **kw: V.append(dict(name=name, kind="neutral", file=file, old=old, new=new, **kw))
+    b("save-params: force constants only when there is no dataset at all", SCRIPT, "        exists_fc_only = (\n            not forces_in_dataset(phonon.dataset) and phonon.force_constants is not None\n        )", "        exists_fc_only = phonon.dataset is None and phonon.force_constants is not None", "R18n", "_finalize_phonopy")
+    n("save-params: the same test through two locals", SCRIPT, "        exists_fc_only = (\n            not forces_in_dataset(phonon.dataset) and phonon.force_constants is not None\n        )", "        has_forces = forces_in_dataset(phonon.dataset)\n        has_fc = phonon.force_constants is not None\n        exists_fc_only = has_fc and not has_forces")
     b("moment order stored only when the moment tag arrives in the same pass", SETT, '        if self._settings.is_moment:\n            if "moment_order" in params:\n                self._settings.set_moment_order(params["moment_order"])', '        if "moment" in params and params["moment"]:\n            if "moment_order" in params:\n                self._settings.set_moment_order(params["moment_order"])', "R18m", "moment_order")
     n("moment order guard written as one condition", SETT, '        if self._settings.is_moment:\n            if "moment_order" in params:\n                self._settings.set_moment_order(params["moment_order"])', '        if self._settings.is_moment and "moment_order" in params:\n            self._settings.set_moment_order(params["moment_order"])')
     b("default displacement distance for the raw calculator option", SCRIPT, "get_default_displacement_distance(phonon.calculator)", "get_default_displacement_distance(settings.calculator)", "R18j", "main")
